@@ -421,6 +421,121 @@ func stressClaim(seed int64, ms int) string {
 		lookups.Load(), updates.Load(), later.Load(), miss.Load(), mix.Load(), first.get())
 }
 
+// stressHandover (fix D31): service pkg.Hand is listed by two alternating targets (one of them always lists it),
+// by a flipper that alternately lists and drops it, and by cyclers that Watch → UpdateDesc (listing it) →
+// lookup → Close → lookups. Owners release the service all the time, so it keeps being handed over between
+// the waiting claimants. Once the permanent lister's first update has returned the service must never be
+// absent; a cycler must never be routed to after its own Close returned (a promoted stale claim would do
+// that); every result must come from one description.
+func stressHandover(seed int64, ms int) string {
+	r := rand.New(rand.NewSource(seed))
+	cyclers := 3 + r.Intn(4)
+	lookers := 2 + r.Intn(3)
+	after := 5 + r.Intn(10)
+	prev := runtime.GOMAXPROCS(4 * runtime.NumCPU())
+	defer runtime.GOMAXPROCS(prev)
+
+	sr := routing.NewServiceRouter(pool{}, routing.ServiceRouterOpts{})
+	mk := func(name string, hand bool) *bridgedesc.Target {
+		d := &bridgedesc.Target{Name: name, Services: []bridgedesc.Service{
+			{Name: protoreflect.FullName("pkg.Own_" + name), Methods: []bridgedesc.Method{{RPCName: "/pkg.Own_" + name + "/M"}}},
+		}}
+		if hand {
+			d.Services = append(d.Services, bridgedesc.Service{Name: "pkg.Hand", Methods: []bridgedesc.Method{{RPCName: "/pkg.Hand/M"}}})
+		}
+		return d
+	}
+	var stop atomic.Bool
+	var wg sync.WaitGroup
+	var lookups, handCycles, miss, ownAfterClose, mix atomic.Int64
+	var first firstViolation
+	bad := func() bool { return miss.Load()+ownAfterClose.Load()+mix.Load() > 0 }
+	ctx := grpcCtx("/pkg.Hand/M")
+	look := func(who string) *bridgedesc.Target {
+		_, g, err := sr.RouteGRPC(ctx)
+		lookups.Add(1)
+		if err != nil {
+			miss.Add(1)
+			first.set("%s: RouteGRPC(pkg.Hand) missed although one of the alternating targets always lists it: %v", who, err)
+			return nil
+		}
+		if !within(g.Service, g.Target.Services) {
+			mix.Add(1)
+			first.set("%s: RouteGRPC(pkg.Hand): service of another description", who)
+		}
+		return g.Target
+	}
+
+	// two alternating listers driven by ONE goroutine: at every moment at least one of them has a completed
+	// update listing the service, so it must never be absent; but each of them drops it in turn, so the owner
+	// keeps releasing the service and it keeps being handed over to whoever waits (the other lister, a cycler).
+	p1, _ := sr.Watch("alt1")
+	p2, _ := sr.Watch("alt2")
+	p1.UpdateDesc(mk("alt1", true))
+	wg.Add(1)
+	go func() {
+		defer wg.Done()
+		for !stop.Load() {
+			p2.UpdateDesc(mk("alt2", true))
+			p1.UpdateDesc(mk("alt1", false)) // alt1 releases / forgets its claim
+			p1.UpdateDesc(mk("alt1", true))
+			p2.UpdateDesc(mk("alt2", false)) // alt2 releases / forgets its claim
+		}
+	}()
+	wg.Add(1)
+	go func() { // flipper: lists and drops
+		defer wg.Done()
+		w, _ := sr.Watch("flip")
+		for i := 0; !stop.Load(); i++ {
+			w.UpdateDesc(mk("flip", i%2 == 0))
+		}
+		w.Close()
+	}()
+	for i := 0; i < cyclers; i++ {
+		name := fmt.Sprintf("cyc%d", i)
+		wg.Add(1)
+		go func() {
+			defer wg.Done()
+			for cycle := 0; !stop.Load() && !bad(); cycle++ {
+				w, err := sr.Watch(name)
+				if err != nil {
+					return
+				}
+				d1 := mk(name, true)
+				w.UpdateDesc(d1)
+				look(name)
+				d2 := mk(name, true)
+				w.UpdateDesc(d2)
+				w.Close()
+				for k := 0; k < after; k++ {
+					if tgt := look(name); tgt == d1 || tgt == d2 {
+						ownAfterClose.Add(1)
+						first.set("%s cycle %d lookup %d: routed to this target after its Close returned", name, cycle, k)
+					}
+				}
+				handCycles.Add(1)
+			}
+		}()
+	}
+	for i := 0; i < lookers; i++ {
+		wg.Add(1)
+		go func() {
+			defer wg.Done()
+			for !stop.Load() {
+				look("looker")
+			}
+		}()
+	}
+	deadline := time.Now().Add(time.Duration(ms) * time.Millisecond)
+	for time.Now().Before(deadline) && !bad() {
+		time.Sleep(2 * time.Millisecond)
+	}
+	stop.Store(true)
+	wg.Wait()
+	return fmt.Sprintf("lookups=%d cycles=%d miss=%d ownAfterClose=%d mix=%d first=%s",
+		lookups.Load(), handCycles.Load(), miss.Load(), ownAfterClose.Load(), mix.Load(), first.get())
+}
+
 func execStress(f []string) string {
 	if len(f) != 4 {
 		return "BADINPUT"
@@ -441,6 +556,8 @@ func execStress(f []string) string {
 		out = stressClose(seed, ms)
 	case "claim":
 		out = stressClaim(seed, ms)
+	case "handover":
+		out = stressHandover(seed, ms)
 	}
 	if !strings.HasSuffix(out, "first=-") && out != "BADINPUT" {
 		stressFound.Store(true)
